@@ -77,16 +77,17 @@ Print Assumptions c08_no_user_data_after_shutdown_sent.
    time and any number of times (duplication, reordering), everything in transit may be lost at any moment.
    The reachable set is computed by a worklist closure; vm_compute checks that it contains the 9 initial states and is
    closed under the step relation, and c08_closure's instance sd_closure carries the checks to every reachable state.
+   sd_started: some Shutdown call was accepted (it is blocked or has returned nil).
    sd_eventually_closed: from the state there is a finite sequence of deliveries / T2, ack-timer, T3 expiries /
    "own transport closes after the peer has closed" steps — no API call, no loss — to "both closed"; the rank of
    every state is computed and checked to decrease along some step. *)
 Theorem c08_both_close : forall s, sd_reach sd_cfg_one s ->
-  sd_sys_safe s = true /\ sd_sys_inv s = true /\ sd_eventually_closed s.
+  sd_sys_safe s = true /\ sd_sys_inv s = true /\ (sd_started s = true -> sd_eventually_closed s).
 Proof. exact sd_one_sided. Qed.
 Print Assumptions c08_both_close.
 
 Theorem c08_crossed_close : forall s, sd_reach sd_cfg_crossed s ->
-  sd_sys_safe s = true /\ sd_sys_inv s = true /\ sd_eventually_closed s.
+  sd_sys_safe s = true /\ sd_sys_inv s = true /\ (sd_started s = true -> sd_eventually_closed s).
 Proof. exact sd_crossed. Qed.
 Print Assumptions c08_crossed_close.
 
